@@ -6,6 +6,8 @@ CONSTANTS
   MaxKills = 2
   MaxCycles = 3
   DedupModes = {FALSE, TRUE}
+  RecoverOnCrash = TRUE
+  ListAllEntries = FALSE
   Emit = TRUE
 INVARIANTS TypeOK DeleteSafe EmitInv
 
